@@ -294,7 +294,7 @@ func (x *opFunction) Do(currentData, originalData any) (dataToUse any, err error
 		}
 	}
 
-	currentData = convertToDecimalIfNumber(normalizeValue(currentData))
+	currentData = convertToDecimalIfNumber(objectAsMap(normalizeValue(currentData)))
 
 	funcToRun, ok := funcMap[x.FunctionType]
 	if !ok {
